@@ -103,15 +103,23 @@ type zzRefInfo struct {
 	root       common.Hash
 }
 
-// ZZVerif_C11_Tree: K L1 blocks, each with 0..2 events out of {info update, root announcement (V2), verify batches}; restart
-// possible before every block. The L1 info tree has one leaf per info update with consecutive indices in chain order; leaves
-// and roots equal the contract's; every leaf is found by index and by global exit root; proofs verify; a correct root
-// announcement is accepted, a wrong one halts the syncer and the block is not recorded. The rollup exit tree holds the last
-// non-zero exit root per rollup and its root equals the rollup manager's.
-func ZZVerif_C11_Tree() {
-	// SHAPE encodes the sequence of events in base 4, least significant digit first:
-	// 0 = info update, 1 = root announcement, 2 = verify batches, 3 = end of block
-	shape := zzverif.Param("SHAPE")
+// zzL1World: the real processor next to the reference state (contract L1 info tree, info leaves, rollup exit roots) it must mirror.
+type zzL1World struct {
+	ctx           context.Context
+	path          string
+	p             *processor
+	ref           zzRefContract
+	infos         []zzRefInfo
+	rollups       [4]common.Hash
+	lastRER       common.Hash
+	haveRER       bool
+	seenExitRoots []common.Hash
+	lastBlock     uint64
+}
+
+// zzShapeBlocks decodes a SHAPE parameter: the sequence of events in base 4, least significant digit first:
+// 0 = info update, 1 = root announcement, 2 = verify batches, 3 = end of block
+func zzShapeBlocks(shape int) [][]int {
 	var tokens []int
 	for shape > 0 {
 		tokens = append(tokens, shape%4)
@@ -127,104 +135,117 @@ func ZZVerif_C11_Tree() {
 			cur = append(cur, t)
 		}
 	}
-	k := len(blocksTok)
-	ctx := context.Background()
-	path := zzverif.TempDB("l1info")
-	p := zzNewProcessor(path)
-	ref := &zzRefContract{}
-	var infos []zzRefInfo
-	var rollups [4]common.Hash
-	lastRER := common.Hash{}
-	haveRER := false
-	var seenExitRoots []common.Hash
-	lastBlock := uint64(0)
-	for i := 0; i < k; i++ {
-		num := uint64(i + 1)
-		if zzverif.Param("RESTART") == 1 {
-			p = zzNewProcessor(path)
-		}
-		blk := sync.Block{Num: num, Hash: zzverif.Hash("bh")}
-		pos := uint64(0)
-		halts := false
-		newInfos := infos
-		newRef := *ref
-		newRollups := rollups
-		newLastRER, newHaveRER := lastRER, haveRER
-		for _, kind := range blocksTok[i] {
-			switch kind {
-			case 0:
-				in := zzRefInfo{block: num, pos: pos, mer: zzverif.Hash("mer"), rer: zzverif.Hash("rer"), parent: zzverif.Hash("parent"), ts: zzverif.U64("ts") >> 2}
-				in.ger, in.leaf = zzRefL1InfoLeaf(in.mer, in.rer, in.parent, in.ts)
-				for _, o := range newInfos {
-					zzverif.Assume(o.ger != in.ger) // the contract never emits the same global exit root twice
+	return blocksTok
+}
+
+func (w *zzL1World) snapshot() zzL1World {
+	c := *w
+	c.infos = append([]zzRefInfo{}, w.infos...)
+	c.seenExitRoots = append([]common.Hash{}, w.seenExitRoots...)
+	return c
+}
+
+// restore puts the reference state back to a snapshot (the processor and its database are kept)
+func (w *zzL1World) restore(s zzL1World) {
+	p := w.p
+	*w = s
+	w.p = p
+}
+
+// build makes block `num` out of event kinds with symbolic contents and returns it with the reference state after it (in nw) and
+// whether one of its root announcements is wrong (the syncer must halt on it).
+func (w *zzL1World) build(num uint64, kinds []int) (blk sync.Block, nw zzL1World, halts bool) {
+	blk = sync.Block{Num: num, Hash: zzverif.Hash("bh")}
+	nw = w.snapshot()
+	pos := uint64(0)
+	for _, kind := range kinds {
+		switch kind {
+		case 0:
+			in := zzRefInfo{block: num, pos: pos, mer: zzverif.Hash("mer"), rer: zzverif.Hash("rer"), parent: zzverif.Hash("parent"), ts: zzverif.U64("ts") >> 2}
+			in.ger, in.leaf = zzRefL1InfoLeaf(in.mer, in.rer, in.parent, in.ts)
+			for _, o := range nw.infos {
+				zzverif.Assume(o.ger != in.ger) // the contract never emits the same global exit root twice
+			}
+			nw.ref.addLeaf(in.leaf)
+			in.root = nw.ref.getRoot()
+			nw.infos = append(nw.infos, in)
+			blk.Events = append(blk.Events, Event{UpdateL1InfoTree: &UpdateL1InfoTree{
+				BlockPosition: pos, MainnetExitRoot: in.mer, RollupExitRoot: in.rer, ParentHash: in.parent, Timestamp: in.ts}})
+		case 1:
+			if len(nw.infos) == 0 {
+				zzverif.Assume(false) // the contract announces a root only after a leaf exists
+			}
+			ev := &UpdateL1InfoTreeV2{CurrentL1InfoRoot: nw.ref.getRoot(), LeafCount: nw.ref.count}
+			if !zzverif.Bool("v2ok") {
+				if zzverif.Bool("v2wrongCount") {
+					ev.LeafCount = zzverif.U32("v2count")
+					zzverif.Assume(ev.LeafCount != nw.ref.count)
+				} else {
+					ev.CurrentL1InfoRoot = zzverif.Hash("v2root")
+					zzverif.Assume(ev.CurrentL1InfoRoot != nw.ref.getRoot())
 				}
-				newRef.addLeaf(in.leaf)
-				in.root = newRef.getRoot()
-				newInfos = append(newInfos[:len(newInfos):len(newInfos)], in)
-				blk.Events = append(blk.Events, Event{UpdateL1InfoTree: &UpdateL1InfoTree{
-					BlockPosition: pos, MainnetExitRoot: in.mer, RollupExitRoot: in.rer, ParentHash: in.parent, Timestamp: in.ts}})
+				halts = true
+			}
+			blk.Events = append(blk.Events, Event{UpdateL1InfoTreeV2: ev})
+		case 2:
+			id := uint32(zzverif.Int("rollupID", 1, 3))
+			er := common.Hash(zzverif.Hash("exitRoot"))
+			switch zzverif.Int("exitRootKind", 0, 2) {
 			case 1:
-				if len(newInfos) == 0 {
-					zzverif.Assume(false) // the contract announces a root only after a leaf exists
-				}
-				ev := &UpdateL1InfoTreeV2{CurrentL1InfoRoot: newRef.getRoot(), LeafCount: newRef.count}
-				if !zzverif.Bool("v2ok") {
-					if zzverif.Bool("v2wrongCount") {
-						ev.LeafCount = zzverif.U32("v2count")
-						zzverif.Assume(ev.LeafCount != newRef.count)
-					} else {
-						ev.CurrentL1InfoRoot = zzverif.Hash("v2root")
-						zzverif.Assume(ev.CurrentL1InfoRoot != newRef.getRoot())
-					}
-					halts = true
-				}
-				blk.Events = append(blk.Events, Event{UpdateL1InfoTreeV2: ev})
+				er = common.Hash{}
 			case 2:
-				id := uint32(zzverif.Int("rollupID", 1, 3))
-				er := common.Hash(zzverif.Hash("exitRoot"))
-				switch zzverif.Int("exitRootKind", 0, 2) {
-				case 1:
-					er = common.Hash{}
-				case 2:
-					er = newRollups[id-1]
-				}
-				if er != (common.Hash{}) && er != newRollups[id-1] {
-					for _, old := range seenExitRoots {
-						zzverif.Assume(er != old) // exit roots are fresh (see known finding C11-1)
-					}
-					seenExitRoots = append(seenExitRoots, er)
-					newRollups[id-1] = er
-					newLastRER, newHaveRER = zzRefRollupExitRoot(newRollups), true
-				}
-				blk.Events = append(blk.Events, Event{VerifyBatches: &VerifyBatches{
-					BlockPosition: pos, RollupID: id, NumBatch: zzverif.U64("batch") >> 2, StateRoot: zzverif.Hash("stateRoot"),
-					ExitRoot: er, Aggregator: zzverif.Addr("aggregator")}})
+				er = nw.rollups[id-1]
 			}
-			pos++
-			if halts {
-				break
+			if er != (common.Hash{}) && er != nw.rollups[id-1] {
+				for _, old := range nw.seenExitRoots {
+					zzverif.Assume(er != old) // exit roots are fresh (see known finding C11-1)
+				}
+				nw.seenExitRoots = append(nw.seenExitRoots, er)
+				nw.rollups[id-1] = er
+				nw.lastRER, nw.haveRER = zzRefRollupExitRoot(nw.rollups), true
 			}
+			blk.Events = append(blk.Events, Event{VerifyBatches: &VerifyBatches{
+				BlockPosition: pos, RollupID: id, NumBatch: zzverif.U64("batch") >> 2, StateRoot: zzverif.Hash("stateRoot"),
+				ExitRoot: er, Aggregator: zzverif.Addr("aggregator")}})
 		}
-		err := p.ProcessBlock(ctx, blk)
+		pos++
 		if halts {
-			zzverif.Reach("halted")
-			zzverif.Assert("wrong announcement: ErrInconsistentState", errors.Is(err, sync.ErrInconsistentState))
-			zzverif.Assert("wrong announcement: syncer halted", p.isHalted())
-			lp, _ := p.GetLastProcessedBlock(ctx)
-			zzverif.Assert("wrong announcement: block not recorded", lp == lastBlock)
-			zzverif.Assert("halted: further blocks refused", errors.Is(p.ProcessBlock(ctx, sync.Block{Num: num + 1}), sync.ErrInconsistentState))
-			s := &L1InfoTreeSync{processor: p}
-			_, e2 := s.GetLastL1InfoTreeRoot(ctx)
-			zzverif.Assert("halted: queries answer ErrInconsistentState", errors.Is(e2, sync.ErrInconsistentState))
-			return
+			break
 		}
-		zzverif.Assert("block processed", err == nil)
-		zzverif.Assert("not halted", !p.isHalted())
-		infos, rollups, lastRER, haveRER = newInfos, newRollups, newLastRER, newHaveRER
-		*ref = newRef
-		lastBlock = num
 	}
+	nw.lastBlock = num
+	return blk, nw, halts
+}
+
+// block builds and processes block `num`; returns false when the run ends there (the syncer halted, as it must).
+func (w *zzL1World) block(num uint64, kinds []int) bool {
+	ctx, p := w.ctx, w.p
+	blk, nw, halts := w.build(num, kinds)
+	err := p.ProcessBlock(ctx, blk)
+	if halts {
+		zzverif.Reach("halted")
+		zzverif.Assert("wrong announcement: ErrInconsistentState", errors.Is(err, sync.ErrInconsistentState))
+		zzverif.Assert("wrong announcement: syncer halted", p.isHalted())
+		lp, _ := p.GetLastProcessedBlock(ctx)
+		zzverif.Assert("wrong announcement: block not recorded", lp == w.lastBlock)
+		zzverif.Assert("halted: further blocks refused", errors.Is(p.ProcessBlock(ctx, sync.Block{Num: num + 1}), sync.ErrInconsistentState))
+		s := &L1InfoTreeSync{processor: p}
+		_, e2 := s.GetLastL1InfoTreeRoot(ctx)
+		zzverif.Assert("halted: queries answer ErrInconsistentState", errors.Is(e2, sync.ErrInconsistentState))
+		return false
+	}
+	zzverif.Assert("block processed", err == nil)
+	zzverif.Assert("not halted", !p.isHalted())
+	w.restore(nw)
+	return true
+}
+
+// observe compares everything the syncer serves with the reference state.
+func (w *zzL1World) observe() {
+	ctx, p, infos, rollups := w.ctx, w.p, w.infos, w.rollups
 	s := &L1InfoTreeSync{processor: p}
+	lp, errLP := p.GetLastProcessedBlock(ctx)
+	zzverif.Assert("last processed block", errLP == nil && lp == w.lastBlock)
 	n := len(infos)
 	if n == 0 {
 		_, err := s.GetInfoByIndex(ctx, 0)
@@ -239,6 +260,8 @@ func ZZVerif_C11_Tree() {
 			zzverif.Assert("leaf j: content", got.MainnetExitRoot == in.mer && got.RollupExitRoot == in.rer && got.PreviousBlockHash == in.parent && got.Timestamp == in.ts)
 			zzverif.Assert("leaf j: global exit root and hash equal the contract's", got.GlobalExitRoot == in.ger && got.Hash == in.leaf)
 		}
+		_, errN := s.GetInfoByIndex(ctx, uint32(n))
+		zzverif.Assert("no leaf beyond the last one", errN != nil)
 		byGER, err := s.GetInfoByGlobalExitRoot(in.ger)
 		zzverif.Assert("leaf j found by global exit root", err == nil && byGER.L1InfoTreeIndex == uint32(j))
 		root, err := s.GetL1InfoTreeRootByIndex(ctx, uint32(j))
@@ -251,13 +274,13 @@ func ZZVerif_C11_Tree() {
 		zzverif.Assert("last root", err == nil && lr.Hash == last.root && lr.Index == uint32(n-1))
 		pr2, err := s.GetL1InfoTreeMerkleProofFromIndexToRoot(ctx, uint32(j), lr.Hash)
 		zzverif.Assert("proof of leaf j under the latest root verifies", err == nil && tree.CalculateRoot(in.leaf, pr2, uint32(j)) == lr.Hash)
-		li, err := s.GetLatestInfoUntilBlock(ctx, lastBlock)
+		li, err := s.GetLatestInfoUntilBlock(ctx, w.lastBlock)
 		zzverif.Assert("latest info until the last block is the last leaf", err == nil && li.L1InfoTreeIndex == uint32(n-1))
 		zzverif.Reach("leaves")
 	}
-	if haveRER {
+	if w.haveRER {
 		rr, err := s.GetLastRollupExitRoot(ctx)
-		zzverif.Assert("rollup exit root == rollup manager's", err == nil && rr.Hash == lastRER)
+		zzverif.Assert("rollup exit root == rollup manager's", err == nil && rr.Hash == w.lastRER)
 		id := uint32(zzverif.Int("qRollup", 1, 3))
 		ler, err := s.GetLocalExitRoot(ctx, id, rr.Hash)
 		if rollups[id-1] != (common.Hash{}) {
@@ -272,6 +295,109 @@ func ZZVerif_C11_Tree() {
 		_, err := s.GetLastRollupExitRoot(ctx)
 		zzverif.Assert("no rollup exit root yet", errors.Is(err, db.ErrNotFound))
 	}
+}
+
+func zzNewL1World() *zzL1World {
+	path := zzverif.TempDB("l1info")
+	return &zzL1World{ctx: context.Background(), path: path, p: zzNewProcessor(path)}
+}
+
+// ZZVerif_C11_Tree: K L1 blocks, each with 0..2 events out of {info update, root announcement (V2), verify batches}; restart
+// possible before every block. The L1 info tree has one leaf per info update with consecutive indices in chain order; leaves
+// and roots equal the contract's; every leaf is found by index and by global exit root; proofs verify; a correct root
+// announcement is accepted, a wrong one halts the syncer and the block is not recorded. The rollup exit tree holds the last
+// non-zero exit root per rollup and its root equals the rollup manager's.
+func ZZVerif_C11_Tree() {
+	blocksTok := zzShapeBlocks(zzverif.Param("SHAPE"))
+	w := zzNewL1World()
+	for i := range blocksTok {
+		if zzverif.Param("RESTART") == 1 {
+			w.p = zzNewProcessor(w.path)
+		}
+		if !w.block(uint64(i+1), blocksTok[i]) {
+			return
+		}
+	}
+	w.observe()
+}
+
+// ZZVerif_C04_L1InfoReorg: blocks per SHAPE are processed, then the chain is reorganised from block B on (optionally after a
+// restart), the blocks of FSHAPE follow from block B, and everything the syncer serves equals the reference state of a chain that
+// never contained the orphaned blocks. Exit roots verified in orphaned blocks may be verified again on the new fork.
+func ZZVerif_C04_L1InfoReorg() {
+	blocksTok := zzShapeBlocks(zzverif.Param("SHAPE"))
+	fork := zzShapeBlocks(zzverif.Param("FSHAPE"))
+	b := zzverif.Param("B")
+	w := zzNewL1World()
+	snaps := []zzL1World{w.snapshot()}
+	for i := range blocksTok {
+		if !w.block(uint64(i+1), blocksTok[i]) {
+			return
+		}
+		snaps = append(snaps, w.snapshot())
+	}
+	if zzverif.Param("RESTART") == 1 {
+		w.p = zzNewProcessor(w.path)
+	}
+	zzverif.Assert("reorg ok", w.p.Reorg(w.ctx, uint64(b)) == nil)
+	if b-1 < len(snaps) {
+		if b >= 1 {
+			w.restore(snaps[b-1])
+		} else {
+			w.restore(snaps[0])
+		}
+	}
+	if zzverif.Param("RESTART") == 2 {
+		w.p = zzNewProcessor(w.path)
+	}
+	for i := range fork {
+		if !w.block(uint64(b+i), fork[i]) {
+			return
+		}
+	}
+	w.observe()
+	zzverif.Reach("end")
+}
+
+var zzL1Tables = []string{"block", "l1info_leaf", "verify_batches", "l1_info_root", "l1_info_rht", "rollup_exit_root", "rollup_exit_rht"}
+
+// ZZVerif_C07_L1InfoFault: blocks per SHAPE; while block FB is processed the FN-th insert into table T fails. The block is not
+// recorded, nothing of it is visible, and - after an optional restart - processing the same block again succeeds and the
+// syncer serves exactly the reference state.
+func ZZVerif_C07_L1InfoFault() {
+	blocksTok := zzShapeBlocks(zzverif.Param("SHAPE"))
+	fb, t, fn := zzverif.Param("FB"), zzverif.Param("T"), zzverif.Param("FN")
+	w := zzNewL1World()
+	for i := range blocksTok {
+		num := uint64(i + 1)
+		if i+1 != fb {
+			if !w.block(num, blocksTok[i]) {
+				return
+			}
+			continue
+		}
+		blk, nw, halts := w.build(num, blocksTok[i])
+		zzverif.Assume(!halts)
+		zzverif.FailInsert(w.p.db, zzL1Tables[t], fn)
+		err := w.p.ProcessBlock(w.ctx, blk)
+		zzverif.ClearFaults(w.p.db, zzL1Tables[t])
+		if err == nil {
+			// the block has fewer inserts into that table than FN: no fault happened
+			zzverif.Reach("nofault")
+			w.restore(nw)
+			continue
+		}
+		zzverif.Reach("fault")
+		zzverif.Assert("fault: not halted", !w.p.isHalted())
+		if zzverif.Bool("restartAfterFault") {
+			w.p = zzNewProcessor(w.path)
+		}
+		w.observe() // nothing of the failed block is visible
+		zzverif.Assert("retry succeeds", w.p.ProcessBlock(w.ctx, blk) == nil)
+		w.restore(nw)
+	}
+	w.observe()
+	zzverif.Reach("end")
 }
 
 // ZZVerif_C11_ExitRootRevert (known finding C11-1): the exit root of a rollup goes A, B, A. The third update brings the rollup
